@@ -27,4 +27,7 @@ def conditions(tier, seed):
         out.append(Cond('prog_gen_%d_%d' % (seed, k), 'c04_interp.py', dict(prog='gen_%d_%d' % (seed, k)), timeout=(240 if tier == 'quick' else t),
                         bound='generated program %d of seed %d: all parameter and attribute values, 9 initial link states' % (k, seed),
                         symbolic=['a0', 'a1', 'ab0', 'ab1', 'v0', 'v1', 'p1', 'p2', 'pb', 'pn'], case_split=['ls'], twin=(k < 2)))
+    out.append(Cond('undo_relate_using_reflexive', 'c04_undo.py', {}, func='check', timeout=t,
+                    bound='real fixture with a reflexive association class (R1 one/other via Assoc): 5 x 5 (first link, second link) scripts; navigations after relate S, relate T, unrelate T equal those after relate S',
+                    case_split=['first', 'second'], realised=['program text']))
     return out
